@@ -9,6 +9,7 @@ import (
 	gotypes "go/types"
 	"sort"
 	"strings"
+	"unicode/utf8"
 
 	"k8s.io/gengo/v2/generator"
 	"k8s.io/gengo/v2/namer"
@@ -225,6 +226,15 @@ func c02synthetic(g *Gen) {
 	for i := 0; i < n; i++ {
 		useTracker := g.Chance(0.7)
 		out := g.Pick([]string{"ex.test/out", "local/out", "ex.test/z/type", "ex.test/a/v1"})
+		unicodePaths := false
+		if i%10 == 4 {
+			// import paths with letters outside ASCII: decided by the re-type-check alone (the model's strings are bytes)
+			useTracker, unicodePaths = true, true
+		}
+		if i%10 == 9 {
+			// single-element import paths (the standard library's) next to an output package of the same leaf name
+			useTracker, out = true, g.Pick([]string{"ex.test/util/time", "ex.test/util/errors"})
+		}
 		var tr namer.ImportTracker
 		if useTracker {
 			tr = generator.NewImportTrackerForPackage(out)
@@ -257,6 +267,18 @@ func c02synthetic(g *Gen) {
 					bi("bool")}},
 			}
 			cls = append(cls, "nested-struct-after-struct")
+		case 4:
+			if unicodePaths {
+				for _, p := range []string{"ex.test/données", "ex.test/包", "ex.test/модель/v1", "ex.test/x/données"} {
+					forced = append(forced, &TNode{Kind: "pointer", Kids: []*TNode{{Kind: "named", Pkg: p, Nm: "T"}}})
+				}
+				cls = append(cls, "import-path-with-non-ascii-letters")
+			} else {
+				for _, p := range []string{"time", "errors", "ex.test/other/time", "io"} {
+					forced = append(forced, &TNode{Kind: "map", Kids: []*TNode{{Kind: "builtin", Nm: "string"}, {Kind: "slice", Kids: []*TNode{{Kind: "named", Pkg: p, Nm: "T"}}}}})
+				}
+				cls = append(cls, "single-element-path-equal-to-the-output-leaf")
+			}
 		case 3:
 			for _, p := range []string{"ex.test/lib/_", "ex.test/w/-", "_"} {
 				forced = append(forced, &TNode{Kind: "pointer", Kids: []*TNode{{Kind: "named", Pkg: p, Nm: "T"}}})
@@ -324,7 +346,9 @@ func c02synthetic(g *Gen) {
 				}
 			}
 		}
-		g.Emit("C02.raw", list(num(c01ver), atom(out), boolS(useTracker), list(ins...)), list(list(names...), lines), cls...)
+		if !unicodePaths {
+			g.Emit("C02.raw", list(num(c01ver), atom(out), boolS(useTracker), list(ins...)), list(list(names...), lines), cls...)
+		}
 		if !useTracker {
 			continue // without a tracker the qualifier is the path's last element, which need not be an identifier
 		}
@@ -386,7 +410,16 @@ func c02synthetic(g *Gen) {
 				}
 			}
 		}
-		g.Emit("C02.denotes!", list(atom(out), boolS(useTracker), atom(b.String()), atom(strings.Join(problems, "; "))), boolS(len(problems) == 0), "retypecheck", "synthetic")
+		dcls := []string{"retypecheck", "synthetic"}
+		if unicodePaths {
+			dcls = append(dcls, "import-path-with-non-ascii-letters")
+			for _, l := range importLines {
+				if !utf8.ValidString(l) {
+					problems = append(problems, fmt.Sprintf("import line %q is not valid UTF-8", l))
+				}
+			}
+		}
+		g.Emit("C02.denotes!", list(atom(out), boolS(useTracker), atom(b.String()), atom(strings.Join(problems, "; "))), boolS(len(problems) == 0), dcls...)
 	}
 }
 
